@@ -11,6 +11,8 @@
 -/
 import CxxModel.Theorems.NsForm
 import CxxModel.Theorems.UsingDecl
+import CxxModel.Theorems.UsingDeclForm
+import CxxModel.Theorems.VarDecl
 import CxxModel.Theorems.AccessForm
 import CxxModel.Theorems.BlockEnd
 import CxxModel.Theorems.Verbose
@@ -330,5 +332,177 @@ theorem toplevel_extern_opens (env : Env) (hp : RulesProgress env.cfg = true) (F
     · rw [hs'.nextId]; exact hsA.nextId
     · rw [hi]
       simp only [dispatch, hx, hpush]
+
+theorem logged_same (env : Env) (w : World) (m : String) :
+    (logged env w m).buf = w.buf ∧ (logged env w m).stack = w.stack ∧ (logged env w m).muted = w.muted ∧
+    (logged env w m).events = w.events ∧ (logged env w m).delivered = w.delivered ∧ (logged env w m).anon = w.anon ∧
+    (logged env w m).nextId = w.nextId := by
+  unfold logged; split <;> exact ⟨rfl, rfl, rfl, rfl, rfl, rfl, rfl⟩
+
+/-- **`using n1 :: … :: nk ;`, the whole declaration through `parse()`'s loop**: with an active
+    visitor that does not raise here, the iteration delivers exactly ONE callback —
+    `on_using_declaration` with the written name, the access level in force (the innermost
+    class's; none outside a class) and the doc text `get_doxygen` found — consumes exactly the
+    declaration and changes nothing else but the block's recorded location (and the debug log
+    in verbose mode). -/
+theorem toplevel_using_declaration (env : Env) (hp : RulesProgress env.cfg = true) (F D : Nat) (w : World)
+    (kwU first : Tok) (pairs : List (Tok × Tok)) (semi : Tok) (b' : Buf)
+    (blk : Block) (rest : List Block) (hstack : w.stack = blk :: rest)
+    (hmu : w.muted = false) (hfa : ¬ env.faultAt = some w.delivered)
+    (hU : kwU.type = "using") (hf : first.type = "NAME") (hfv : plainVal first.value = true)
+    (hfc : Gen.nameCompoundStart.contains first.value = false)
+    (hall : ∀ p ∈ pairs, p.1.type = "DBL_COLON" ∧ p.2.type = "NAME" ∧ plainVal p.2.value = true) (hsemi : semi.type = ";")
+    (hy : Yields env.cfg w.buf (kwU :: ((first :: pairs.flatMap (fun p => [p.1, p.2])) ++ [semi])) b')
+    (hF : pairs.length + 1 ≤ F) :
+    ∃ (d : Option String) (bD : Buf) (w2 : World) (ct : CTok) (ev : Event),
+      getDoxygen env.cfg env.mcRe w.buf = .ok (d, bD) ∧
+      interp env (mainBody F (core F (D + 1)) none) w = (w2, .ok (.inl none)) ∧ w2.buf = b' ∧
+      ct.value = kwU.value ∧
+      w2.stack = { blk with loc := .tok ct.sidx } :: rest ∧ w2.events = w.events ++ [ev] ∧
+      ev.kind = .item (.usingDeclaration {
+        typename := .mk (.name first.value none :: pairs.map (fun p => .name p.2.value none)) none false,
+        access := if blk.hdr.kind = .cls then blk.access else none, doxygen := d }) ∧
+      ev.stateId = blk.id ∧ ev.parentId = rest.head?.map (·.id) ∧
+      w2.delivered = w.delivered + 1 ∧ w2.anon = w.anon ∧ w2.muted = false ∧ w2.nextId = w.nextId := by
+  cases hy with
+  | cons htok hrest =>
+    rename_i b1
+    obtain ⟨bmid, hy1, hy2⟩ := Yields.split hrest
+    cases hy2 with
+    | cons htokS hnil =>
+      rename_i bS
+      have hbS : bS = b' := by cases hnil; rfl
+      subst hbS
+      obtain ⟨d, bD, wA, ct, hd, hsA, hbA, _, hv, hi⟩ := toplevel_dispatch env hp F (core F (D + 1)) w kwU b1 "_parse_using" htok
+        (by rw [hU, dispatch_table_eq]; decide) (by rw [hU, keep_doxygen_eq]; decide)
+      obtain ⟨w', t', hs', htokT0, htyT, hx⟩ := using_declaration_decl env F D ct d first pairs semi { wA with mainTok := some ct } bmid bS
+        blk rest (by show wA.stack = _; rw [hsA.stack]; exact hstack) hf hfv hfc hall hsemi
+        (by show Yields env.cfg wA.buf _ _; rw [hbA]; exact hy1) htokS hF
+      obtain ⟨lb, ls, lm, le, ld, la, ln⟩ := logged_same env w' "parse_pqname"
+      generalize hwL : logged env w' "parse_pqname" = wL at *
+      have hst' : wL.stack = { blk with loc := .tok ct.sidx } :: rest := by rw [ls]; exact hs'.stack
+      have hmu' : wL.muted = false := by rw [lm, hs'.muted]; show wA.muted = _; rw [hsA.muted]; exact hmu
+      have hdl' : wL.delivered = w.delivered := by rw [ld, hs'.delivered]; show wA.delivered = _; exact hsA.delivered
+      have hev' : wL.events = w.events := by rw [le, hs'.events]; show wA.events = _; exact hsA.events
+      have han' : wL.anon = w.anon := by rw [la, hs'.anon]; show wA.anon = _; exact hsA.anon
+      have hnx' : wL.nextId = w.nextId := by rw [ln, hs'.nextId]; show wA.nextId = _; exact hsA.nextId
+      have hdel := deliver_passing env wL (mkEvent wL (.item (.usingDeclaration {
+          typename := .mk (.name first.value none :: pairs.map (fun p => .name p.2.value none)) none false,
+          access := if blk.hdr.kind = .cls then blk.access else none, doxygen := d }))
+        { blk with loc := .tok ct.sidx } (rest.head?.map (·.id))) hmu' (by rw [hdl']; exact hfa)
+      have htokT : tokenEofOk env.cfg
+          ({ wL with events := wL.events ++ [mkEvent wL (.item (.usingDeclaration {
+              typename := .mk (.name first.value none :: pairs.map (fun p => .name p.2.value none)) none false,
+              access := if blk.hdr.kind = .cls then blk.access else none, doxygen := d }))
+              { blk with loc := .tok ct.sidx } (rest.head?.map (·.id))], delivered := wL.delivered + 1 } : World).buf =
+          .ok (some t', bS) := by
+        show tokenEofOk env.cfg wL.buf = _
+        rw [lb]; exact htokT0
+      obtain ⟨w2, c2, hi2, hb2, hs2, _, _⟩ := step_mustBe env [";"] _ t' bS htokT (by rw [htyT]; decide)
+      refine ⟨d, bD, w2, ct, _, hd, ?_, hb2, hv, by rw [hs2.stack]; exact hst', by rw [hs2.events, hev'], rfl, rfl, rfl,
+        by rw [hs2.delivered, hdl'], by rw [hs2.anon]; exact han', by rw [hs2.muted]; exact hmu', by rw [hs2.nextId]; exact hnx'⟩
+      rw [hi]
+      have hi2' := hi2
+      simp only [hst'] at hi2'
+      simp only [dispatch, hx, bind, interp_bind, P.emit, interp, hst', hdel, hi2', pure]
+
+/-- **`T ptr-ops x ;` — a variable declaration through `parse()`'s loop.**  `T` a qualified name of
+    identifiers (any length), `ptr-ops` empty or any sequence of `*`, `const`, `volatile` starting
+    with `*`, `x` an identifier; any comments and blank lines between the tokens.  Outside a class,
+    with an active visitor that does not raise here, the iteration delivers exactly ONE callback —
+    `on_variable` for the innermost open block with the name `x`, the type the declarator denotes
+    (`applyPtrOps`: each `*` a pointer to the type so far, carrying the qualifiers written after
+    it), no value, and the doc text: the block `get_doxygen` found before the declaration or, when
+    there is none, what `get_doxygen_after` finds behind it — consumes exactly the declaration,
+    records the first token's location on the block, and hands no doc text on. -/
+theorem toplevel_variable (env : Env) (hp : RulesProgress env.cfg = true) (F D : Nat) (w : World)
+    (first : Tok) (pairs : List (Tok × Tok)) (ops : List Tok) (x semi : Tok) (d1 : DType) (b1 b0 bmid bx b' : Buf)
+    (blk : Block) (rest : List Block) (hstack : w.stack = blk :: rest) (hk : blk.hdr.kind ≠ .cls)
+    (hmu : w.muted = false) (hfa : ¬ env.faultAt = some w.delivered)
+    (htok : tokenEofOk env.cfg w.buf = .ok (some first, b1))
+    (hty : first.type = "NAME") (htv : identVal first.value = true)
+    (hall : ∀ p ∈ pairs, p.1.type = "DBL_COLON" ∧ p.2.type = "NAME" ∧ plainVal p.2.value = true)
+    (hy0 : Yields env.cfg b1 (pairs.flatMap (fun p => [p.1, p.2])) b0)
+    (hops : opsHeadOk ops = true) (hopsv : ∀ o ∈ ops, o.value ≠ "auto")
+    (hy : Yields env.cfg b0 ops bmid)
+    (ha : applyPtrOps (.type (.mk (.name first.value none :: pairs.map (fun p => .name p.2.value none)) none false) false false)
+      (ops.map (·.type)) = some d1)
+    (htx : tokenEofOk env.cfg bmid = .ok (some x, bx)) (hx : x.type = "NAME") (hxv : identVal x.value = true)
+    (hsemi : tokenEofOk env.cfg bx = .ok (some semi, b')) (hs : semi.type = ";")
+    (hF : pairs.length + ops.length + 2 ≤ F) :
+    ∃ (d : Option String) (bD : Buf) (w7 : World) (ct : CTok) (dox : Option String) (ev : Event),
+      getDoxygen env.cfg env.mcRe w.buf = .ok (d, bD) ∧
+      interp env (mainBody F (core F (D + 1 + 1)) none) w = (w7, .ok (.inl none)) ∧
+      SigEq b' w7.buf ∧ ct.value = first.value ∧ w7.stack = { blk with loc := .tok ct.sidx } :: rest ∧
+      w7.events = w.events ++ [ev] ∧ ev.kind = .item (.variable (plainVariable x d1 dox)) ∧
+      ev.stateId = blk.id ∧ ev.parentId = rest.head?.map (·.id) ∧ (∀ dd, d = some dd → dox = some dd) ∧
+      w7.delivered = w.delivered + 1 ∧ w7.anon = w.anon ∧ w7.muted = false ∧ w7.nextId = w.nextId := by
+  obtain ⟨d, bD, wA, ct, hd, hsA, hbA, htyc, hv, hi⟩ := mainBody_item env hp F (core F (D + 1 + 1)) w first b1 htok
+  obtain ⟨w7, dox, ev, hi7, hsig, hst7, hev7, hk7, hid7, hpar7, hdox7, hdl7, han7, hmu7, hnx7, _⟩ :=
+    parseDeclarations_variable env F D ct d pairs ops x semi d1 { wA with mainTok := some ct } b0 bmid bx b' blk rest
+      (by show wA.stack = _; rw [hsA.stack]; exact hstack) hk (by show wA.muted = _; rw [hsA.muted]; exact hmu)
+      (by show ¬ env.faultAt = some wA.delivered; rw [hsA.delivered]; exact hfa) (htyc.trans hty) (by rw [hv]; exact htv) hall
+      (by show Yields env.cfg wA.buf _ _; rw [hbA]; exact hy0) hops hopsv hy (by rw [hv]; exact ha) htx hx hxv hsemi hs hF
+  refine ⟨d, bD, w7, ct, dox, ev, hd, ?_, hsig, hv, hst7, by rw [hev7]; show wA.events ++ _ = _; rw [hsA.events], hk7, hid7, hpar7,
+    hdox7, by rw [hdl7]; show wA.delivered + 1 = _; rw [hsA.delivered], by rw [han7]; exact hsA.anon, hmu7,
+    by rw [hnx7]; exact hsA.nextId⟩
+  rw [hi]
+  have hti : topItem F (core F (D + 1 + 1)) ct d = parseDeclarations F (core F (D + 1 + 1)) ct d := by
+    unfold topItem
+    have : Gen.dispatchTable.lookup "NAME" = none := by rw [dispatch_table_eq]; decide
+    rw [htyc, hty, this]
+  have hcar : carry ct d = none := by
+    unfold carry
+    have : Gen.keepDoxygen.contains "NAME" = false := by rw [keep_doxygen_eq]; decide
+    rw [htyc, hty, this]
+    rfl
+  rw [hti, hi7, hcar]
+
+/-- **`T ptr-ops x ;` in a class body — a data member through `parse()`'s loop**: as
+    `toplevel_variable`, with exactly ONE `on_class_field` for the innermost open class carrying the
+    name `x`, the type the declarator denotes, the access level in force in THAT class, no bit
+    width, no value, and the doc text before or else behind the declaration. -/
+theorem toplevel_field (env : Env) (hp : RulesProgress env.cfg = true) (F D : Nat) (w : World)
+    (first : Tok) (pairs : List (Tok × Tok)) (ops : List Tok) (x semi : Tok) (d1 : DType) (b1 b0 bmid bx b' : Buf)
+    (blk : Block) (rest : List Block) (hstack : w.stack = blk :: rest) (hk : blk.hdr.kind = .cls) (acc : String) (hacc : blk.access = some acc)
+    (hmu : w.muted = false) (hfa : ¬ env.faultAt = some w.delivered)
+    (htok : tokenEofOk env.cfg w.buf = .ok (some first, b1))
+    (hty : first.type = "NAME") (htv : identVal first.value = true)
+    (hall : ∀ p ∈ pairs, p.1.type = "DBL_COLON" ∧ p.2.type = "NAME" ∧ plainVal p.2.value = true)
+    (hy0 : Yields env.cfg b1 (pairs.flatMap (fun p => [p.1, p.2])) b0)
+    (hops : opsHeadOk ops = true) (hopsv : ∀ o ∈ ops, o.value ≠ "auto")
+    (hy : Yields env.cfg b0 ops bmid)
+    (ha : applyPtrOps (.type (.mk (.name first.value none :: pairs.map (fun p => .name p.2.value none)) none false) false false)
+      (ops.map (·.type)) = some d1)
+    (htx : tokenEofOk env.cfg bmid = .ok (some x, bx)) (hx : x.type = "NAME") (hxv : identVal x.value = true)
+    (hsemi : tokenEofOk env.cfg bx = .ok (some semi, b')) (hs : semi.type = ";")
+    (hF : pairs.length + ops.length + 2 ≤ F) :
+    ∃ (d : Option String) (bD : Buf) (w7 : World) (ct : CTok) (dox : Option String) (ev : Event),
+      getDoxygen env.cfg env.mcRe w.buf = .ok (d, bD) ∧
+      interp env (mainBody F (core F (D + 1 + 1)) none) w = (w7, .ok (.inl none)) ∧
+      SigEq b' w7.buf ∧ ct.value = first.value ∧ w7.stack = { blk with loc := .tok ct.sidx } :: rest ∧
+      w7.events = w.events ++ [ev] ∧ ev.kind = .item (.classField (plainField x d1 acc dox)) ∧
+      ev.stateId = blk.id ∧ ev.parentId = rest.head?.map (·.id) ∧ (∀ dd, d = some dd → dox = some dd) ∧
+      w7.delivered = w.delivered + 1 ∧ w7.anon = w.anon ∧ w7.muted = false ∧ w7.nextId = w.nextId := by
+  obtain ⟨d, bD, wA, ct, hd, hsA, hbA, htyc, hv, hi⟩ := mainBody_item env hp F (core F (D + 1 + 1)) w first b1 htok
+  obtain ⟨w7, dox, ev, hi7, hsig, hst7, hev7, hk7, hid7, hpar7, hdox7, hdl7, han7, hmu7, hnx7, _⟩ :=
+    parseDeclarations_field env F D ct d pairs ops x semi d1 { wA with mainTok := some ct } b0 bmid bx b' blk rest
+      (by show wA.stack = _; rw [hsA.stack]; exact hstack) hk acc hacc (by show wA.muted = _; rw [hsA.muted]; exact hmu)
+      (by show ¬ env.faultAt = some wA.delivered; rw [hsA.delivered]; exact hfa) (htyc.trans hty) (by rw [hv]; exact htv) hall
+      (by show Yields env.cfg wA.buf _ _; rw [hbA]; exact hy0) hops hopsv hy (by rw [hv]; exact ha) htx hx hxv hsemi hs hF
+  refine ⟨d, bD, w7, ct, dox, ev, hd, ?_, hsig, hv, hst7, by rw [hev7]; show wA.events ++ _ = _; rw [hsA.events], hk7, hid7, hpar7,
+    hdox7, by rw [hdl7]; show wA.delivered + 1 = _; rw [hsA.delivered], by rw [han7]; exact hsA.anon, hmu7,
+    by rw [hnx7]; exact hsA.nextId⟩
+  rw [hi]
+  have hti : topItem F (core F (D + 1 + 1)) ct d = parseDeclarations F (core F (D + 1 + 1)) ct d := by
+    unfold topItem
+    have : Gen.dispatchTable.lookup "NAME" = none := by rw [dispatch_table_eq]; decide
+    rw [htyc, hty, this]
+  have hcar : carry ct d = none := by
+    unfold carry
+    have : Gen.keepDoxygen.contains "NAME" = false := by rw [keep_doxygen_eq]; decide
+    rw [htyc, hty, this]
+    rfl
+  rw [hti, hi7, hcar]
 
 end Cxx
